@@ -66,7 +66,7 @@ func TestC01(t *testing.T) {
 	run := rt.Start(t, "C01")
 	defer run.Finish()
 	r := run.Rand()
-	ncfg := run.N(400, 20000)
+	ncfg := run.N(1600, 60000)
 	for c := 0; c < ncfg; c++ {
 		if run.Stop() {
 			break
